@@ -1,5 +1,7 @@
 """C06 — interest accrual conserves value, is monotone, and is always applied first."""
 import gen_bank as G
+import gen_hops as H
+import hops_oracles as O
 ID = "C06"
 MANIFEST = {
     "text": ("Kernel-checked theorems about Bank::accrue_interest for all banks, fee settings, elapsed times and magnitudes: share "
@@ -12,6 +14,7 @@ MANIFEST = {
     "technique": "Coq proof (inversion of accrue_interest + chained floor inequalities) + model/implementation correspondence on the bank state machine",
 }
 THEOREMS = ["C06_monotone_nonneg_fees_program_fee_off", "C06_idempotent", "C06_credit_le_charge_partial"]
+# handler-level freshness theorems are added to this list when props/C06.v gains them
 RULE = ("banks with random non-zero totals (10^3..10^18 native units), utilisation 0..100%, share values 1/accrued/post-loss, "
         "valid seven-point curves, fee settings zero/typical, program fees on/off; sequences of clock advances (1 s .. 1 year) "
         "interleaved with accrue (including repeated accrue at the same time) and user operations. Non-trivial = at least one "
@@ -65,7 +68,12 @@ def now0(banks, now):
 def suites(rng, tier):
     n = {"quick": 2500, "thorough": 60000, "search": 30000}[tier]
     lines = [gen_case2(rng) for _ in range(n)]
-    return [{"suite": "bankops", "name": "bankops-accrual", "lines": lines, "distribution": {"cases": n}}]
+    m = {"quick": 500, "thorough": 10000, "search": 8000}[tier]
+    hl = [H.gen_case(rng) for _ in range(m)]
+    return [{"suite": "bankops", "name": "bankops-accrual", "lines": lines, "distribution": {"cases": n}},
+            {"suite": "hops", "name": "hops-handlers", "lines": hl, "distribution": {"cases": m}},
+            {"suite": "hopsref", "name": "hops-freshness-reference", "lines": hl, "impl_only": True,
+             "distribution": {"cases": m, "note": "same cases; adds the real accrue_interest applied in isolation as reference"}}]
 
 
 def gen_case2(rng):
@@ -95,6 +103,14 @@ def gen_case2(rng):
 
 
 def nontrivial(suite, case, impl):
+    if suite in ("hops", "hopsref"):
+        tr = O.Trace(case, impl)
+        for op, res, b0, a0, b1, a1, now, prices in O.walk(tr):
+            if res == "OK" and op[0] in (1, 2, 3, 4, 7, 17, 18):
+                k = op[2] if op[0] != 17 else op[4]
+                if b1[k]["lsv"] != b0[k]["lsv"]:
+                    return True
+        return False
     c = G.parse_case(case)
     outs = G.parse_out(impl)
     st = [dict(b) for b in c["banks"]]
@@ -108,6 +124,8 @@ def nontrivial(suite, case, impl):
 
 
 def oracle(suite, case, impl):
+    if suite in ("hops", "hopsref"):
+        return O.oracle_c06_fresh(O.Trace(case, impl))
     c = G.parse_case(case)
     outs = G.parse_out(impl)
     st = [dict(b) for b in c["banks"]]
